@@ -374,6 +374,77 @@ def oracle_relay(r):
     return None
 
 
+def run_under_pty(argv, env, timeout=180):
+    """runs a command with a pseudo-terminal as stdin/stdout/stderr (the progress bar and everything that hangs off it only runs on a terminal)"""
+    import pty, select, subprocess, time as _t
+    m, s_ = pty.openpty()
+    p = subprocess.Popen(argv, stdin=s_, stdout=s_, stderr=s_, env=env, close_fds=True)
+    os.close(s_)
+    out, t_end = b'', _t.time() + timeout
+    while True:
+        r, _, _ = select.select([m], [], [], 0.2)
+        if r:
+            try:
+                d = os.read(m, 65536)
+            except OSError:
+                d = b''
+            if not d:
+                break
+            out += d
+        elif p.poll() is not None:
+            break
+        if _t.time() > t_end:
+            p.kill(); break
+    p.wait(); os.close(m)
+    return p.returncode, out
+
+
+def c11_terminal_copy(run):
+    """L4 on a terminal: with a live progress bar the boss sends progress markers *between the parts of one file* (every MiB); the copy must
+    still be exact.  Files around the marker step, onto absent / longer / shorter destinations; local and remote destination."""
+    from . import l3, l4
+    import shutil
+    if not os.path.exists(C.CLI_BIN):
+        return
+    thorough = run.tier == 'thorough'
+    sb = l4.Sandbox(); sb.place_remote('same')
+    try:
+        sizes = [0, 5, 4097, (1 << 20) + 1, (2 << 20) - 4096, (2 << 20) + 1, 3 << 20, (5 << 20) + 17] + ([(10 << 20) + 1, 33 << 20] if thorough else [])
+        for trial, remote in enumerate([False, True]):
+            base = os.path.join(sb.dir, f't{trial}'); src, dst = base + '/src', base + '/dst'; os.makedirs(src + '/sub'); os.makedirs(dst + '/sub')
+            want = {}
+            for i, n in enumerate(sizes):
+                rel = ('sub/' if i % 2 else '') + f'f{i}'
+                data = l3.content(i + 77 * trial, n); want[rel] = data
+                with open(os.path.join(src, rel), 'wb') as f: f.write(data)
+                os.utime(os.path.join(src, rel), ns=(1_600_000_000_000_000_000 + i, 1_600_000_000_000_000_000 + i))
+                if i % 3 == 1:
+                    with open(os.path.join(dst, rel), 'wb') as f: f.write(b'\xee' * (n + 5000 if i % 2 else max(0, n - 7)))
+                    os.utime(os.path.join(dst, rel), ns=(1_500_000_000_000_000_000, 1_500_000_000_000_000_000))
+            dest_arg = (('localhost:' + dst + '/') if remote else dst + '/')
+            rc, out = run_under_pty([C.CLI_BIN, src + '/', dest_arg] + (['--deploy', 'error'] if remote else []), sb.env({}))
+            bad = None
+            if rc != 0:
+                bad = f'exit status {rc}: {out[-300:]!r}'
+            else:
+                for rel, data in want.items():
+                    try:
+                        with open(os.path.join(dst, rel), 'rb') as f: got = f.read()
+                    except OSError as e:
+                        got = None
+                    if got != data:
+                        bad = f'{rel}: source {len(data)} bytes, destination {"missing" if got is None else str(len(got)) + " bytes"} after a run that reported success'
+                        break
+            run.case(('terminal-copy', trial, tuple(sizes)), True, sample=dict(layer='L4', terminal=True, remote_dest=remote, sizes=sizes, exit=rc))
+            run.count('terminal-copy:' + ('remote' if remote else 'local')); run.cov['traces_validated_against_impl'] += 1
+            if bad:
+                run.violation(dict(kind='oracle-failed-on-implementation', layer='L4', oracle='copied bytes equal the source, on a terminal with a live progress bar', message=bad,
+                                   sizes=sizes, remote_dest=remote, how='the CLI under a pseudo-terminal (python pty), src/ -> dst/; compare bytes'))
+                break
+    finally:
+        sb.close()
+
+
 def c11_concurrent_writer(run):
     from . import l3
     import shutil
@@ -542,6 +613,7 @@ def check_C11(run):
     finally:
         shutil.rmtree(d, ignore_errors=True)
     c11_concurrent_writer(run)
+    c11_terminal_copy(run)
     # L2 relay: sources that grow / shrink between listing and read
     rng = run.rng
     scs = []
@@ -983,6 +1055,16 @@ def check_C10(run):
         nb, nd = rng.randint(0, 10), rng.randint(0, 10)
         td, tb = c10_script(rng, nb, nd)
         cases.append((nb, nd, td, tb))
+    # long sessions: a counter that wraps or fails to carry repeats a nonce only after 2^7 / 2^8 (thorough: 2^15 / 2^16) frames of one direction;
+    # honest delivery (key-stream reuse is looked for among all frames) and a replay at exactly those distances in place of the honest frame
+    for n_long in ([300] if not thorough else [300, 1100, 70000]):
+        hb = [f'fb{k}' for k in range(n_long)]; hd = [f'fd{k}' for k in range(n_long)]
+        cases.append((n_long, n_long, hb, hd))
+        if n_long <= 2000:
+            for dist in (127, 128, 129, 256):
+                j = dist + 30
+                cases.append((n_long, n_long, hb[:j] + [hb[j - dist]] + hb[j + 1:], hd))
+                cases.append((n_long, n_long, hb, hd[:j] + [hd[j - dist]] + hd[j + 1:]))
     key = '%032x' % rng.getrandbits(128)
     hl = [f'mitm {key} {nb} {nd} {len(td)} ' + ' '.join(td) + f' {len(tb)} ' + ' '.join(tb) for nb, nd, td, tb in cases]
     hl = [' '.join(l.split()) for l in hl]
@@ -1582,6 +1664,33 @@ def oracle_consent_behaviours(r):
     return None
 
 
+def oracle_prompt_consent(r):
+    """behaviour = prompt: a deletion / an overwrite in a category needs an affirmative answer given to a prompt *of that category*
+    in this run (read off the prompts the implementation printed and the answers it was fed, position by position) — an answer
+    remembered for one category, or from an earlier sync, consents to nothing in another"""
+    sc, d = r['sc'], r['impl_r'].get('dest', [])
+    if r['impl_r'].get('res') == 'panic':
+        return None
+    kinds = [l2.classify_prompt(l) for l in r.get('printed', [])]
+    answers = [a.split(':', 2)[2] for a in r.get('conc', '').split(',') if a]
+    granted = set(k for k, a in zip(kinds, answers) if a.startswith(('Overwrite', 'Delete')))
+    newer, older, same, entry, root = sc.beh
+    dl, sl = effective_dest_listing(sc), effective_src_listing(sc)
+    for c in d:
+        n = cmd_name(c)
+        if n.startswith('Delete') and cmd_path(c) != '' and entry == 'p' and 'E' not in granted:
+            return f'{c} sent although deletions are to be prompted for and no prompt about a deletion was answered with Delete (prompts asked: {"".join(kinds) or "none"})'
+        if n == 'CreateOrUpdateFile' and cmd_path(c) != '':
+            sd, dd = sl.get(cmd_path(c)), dl.get(cmd_path(c))
+            if sd and dd and sd.startswith('F:') and dd.startswith('F:'):
+                sm, dm = int(sd.split(':')[1]), int(dd.split(':')[1])
+                b, k = (same, 'S') if sm == dm else ((older, 'O') if sm > dm else (newer, 'N'))
+                if b == 'p' and k not in granted:
+                    return (f'existing destination file {cmd_path(c)!r} (case {k}) overwritten although its case is to be prompted for and no prompt of that case '
+                            f'was answered with Overwrite (prompts asked: {"".join(kinds) or "none"}; answers: {answers[:len(kinds)]})')
+    return None
+
+
 def oracle_failure_reported(r):
     if r['faulty'] and r['impl_r'].get('res') == 'ok':
         return 'the destination doer answered a command with an error but the run ended ok'
@@ -1732,7 +1841,7 @@ def general_l2(run, n=None, label='general-traces'):
     global GENERIC_L2_ORACLES
     if GENERIC_L2_ORACLES is None:
         GENERIC_L2_ORACLES = [('source-read-only', oracle_src_readonly), ('ancestors', oracle_ancestors), ('dry-run-read-only', oracle_dry),
-                              ('consent-error-untouched', oracle_consent_error_untouched), ('behaviours', oracle_consent_behaviours),
+                              ('consent-error-untouched', oracle_consent_error_untouched), ('behaviours', oracle_consent_behaviours), ('prompt-consent', oracle_prompt_consent),
                               ('failure-reported', oracle_failure_reported), ('summary', oracle_summary), ('relay', oracle_relay),
                               ('failed-delete-no-creation', oracle_failed_delete_no_creation), ('no-command-through-link', oracle_no_command_through_link),
                               ('same-filters', oracle_same_filters), ('order', oracle_order)]
@@ -1750,6 +1859,11 @@ def general_l2(run, n=None, label='general-traces'):
         sc_.src_root, sc_.dest_root = 'S', 'D'
         sc_.src_reply = ('R', 'D', 0, 47); sc_.dest_reply = ('R', 'D', rng.random() < 0.3, 47); sc_.dest_reply2 = ('R', None, False, 47)
         names = rng.sample(['a', 'b', 'c', 'd', 'e'], rng.randint(2, 4))
+        # siblings whose names extend another's by a character that sorts below '/' (data, data.old, data-2, "data (copy)"): any
+        # ordering shortcut over the kept entries has to cope with them
+        for nm in list(names):
+            if rng.random() < 0.4:
+                names.insert(rng.randrange(len(names) + 1), nm + rng.choice(['.old', '-2', ' (copy)', '.', '!', '0', '_x']))
         top_s, kids_s, top_d, kids_d = [], [], [], []
         for nm in names:
             r_ = rng.random()
@@ -1911,7 +2025,7 @@ def check_C03(run):
     def nt(r):
         ir = r['impl_r']
         return bool(ir.get('prompts')) or ir.get('res') in CONSENT_ERRS or any(cmd_name(c).startswith('Delete') for c in ir.get('dest', []))
-    l2_stream(run, scs, [('consent-error-untouched', oracle_consent_error_untouched), ('behaviours', oracle_consent_behaviours)], 'consent', nontrivial=nt,
+    l2_stream(run, scs, [('consent-error-untouched', oracle_consent_error_untouched), ('behaviours', oracle_consent_behaviours), ('prompt-consent', oracle_prompt_consent)], 'consent', nontrivial=nt,
               focus_gen=lambda: [l2.gen_scenario(rng, faults=False) for _ in range(6000)])
     run.cov['trusted_base'] = C.GLOBAL_TRUST + ['dialoguer / an attended terminal are not exercised: answers come through the test-answer hook; an unattended terminal is the exhausted script']
 
